@@ -36,6 +36,28 @@ pub fn entities_ok(raw: &str) -> bool {
     true
 }
 
+/// membership in the language of a pattern: by the minimal automaton built from the regular expression text (cached);
+/// only if the harness cannot parse an expression, the crate's validator is used (C19 compares the two on their own)
+pub fn pattern_accepts(regex: &str, check_fn: fn(&[u8]) -> bool, text: &[u8]) -> bool {
+    use super::regexdfa::Dfa;
+    use std::collections::HashMap;
+    use std::sync::{Arc, RwLock};
+    static CACHE: RwLock<Option<HashMap<String, Option<Arc<Dfa>>>>> = RwLock::new(None);
+    if let Some(entry) = CACHE.read().unwrap().as_ref().and_then(|m| m.get(regex)) {
+        return match entry {
+            Some(d) => d.accepts(text),
+            None => check_fn(text),
+        };
+    }
+    let built = Dfa::from_regex(regex).ok().map(|d| Arc::new(d.minimized()));
+    let r = match &built {
+        Some(d) => d.accepts(text),
+        None => check_fn(text),
+    };
+    CACHE.write().unwrap().get_or_insert_with(HashMap::new).insert(regex.to_string(), built);
+    r
+}
+
 /// violations of one value against its spec; `raw` values are judged on their raw text
 pub fn value_violations(val: &Val, spec: &CharacterDataSpec, v: AutosarVersion, at: &str, out: &mut Vec<SpecViolation>) {
     let mut add = |kind: &'static str| out.push(SpecViolation { kind, at: at.to_string() });
@@ -56,12 +78,13 @@ pub fn value_violations(val: &Val, spec: &CharacterDataSpec, v: AutosarVersion, 
                 },
             }
         }
-        CharacterDataSpec::Pattern { check_fn, max_length, .. } => {
+        CharacterDataSpec::Pattern { check_fn, max_length, regex } => {
             let t = text_owned.trim_matches(is_ws);
             if max_length.is_some_and(|m| t.len() > m) {
                 add("value-too-long");
             }
-            if !check_fn(t.as_bytes()) {
+            // judged by the harness's own automaton of the published regular expression, not by the crate's validator
+            if !pattern_accepts(regex, *check_fn, t.as_bytes()) {
                 add("pattern-mismatch");
             }
             if is_raw && !entities_ok(t) {
